@@ -143,3 +143,22 @@ Definition read_stream (depth : nat) (bs : bytes) : read_result :=
   end.
 
 End Stream.
+
+(* the byte string the descriptor hash is computed over: name, then per field its name and type in the
+   GENERATED order (gen/Gen_packer.v hash_field_order) *)
+Definition hash_input (name_first : bool) (d : desc) : bytes :=
+  d_name d ++ concat (map (fun f => if name_first then snd f ++ fst f else fst f ++ snd f) (d_fields d)).
+
+(* two writers open at the same time: a history of (which writer, item) *)
+Section TwoWriters.
+Variable c : cfg.
+Variable HASH : desc -> Z.
+Fixpoint run_two (s1 s2 : wstate) (h : list (bool * item)) : list bytes * list bytes :=
+  match h with
+  | [] => ([], [])
+  | (true, it) :: t => let '(s1', b) := write_bodies c HASH s1 it in
+                       let '(o1, o2) := run_two s1' s2 t in (b ++ o1, o2)
+  | (false, it) :: t => let '(s2', b) := write_bodies c HASH s2 it in
+                        let '(o1, o2) := run_two s1 s2' t in (o1, b ++ o2)
+  end.
+End TwoWriters.
